@@ -339,6 +339,29 @@ def repeated_entries(ctx, calc, wd):
         ctx.violation(f"write_output with repeated variables raised {ex!r}", {}, {"clause": "repeat_raises"})
     finally:
         calc.config["output"] = saved
+    # a writer built with rules of its own keeps them, whatever other writers (with the packaged rules) are built and used in between
+    out4 = Path(tempfile.mkdtemp(dir=wd.path))
+    own = [{"keywords": ["bm_V", "my_bulk"], "fname_pattern": "kv_{base}_kbar.txt", "prop": "bulk_modulus_voigt", "unit": "kbar",
+            "unit_internal": "rydberg / bohr ^ 3", "var_type": "value", "description": "Voigt bulk modulus in kbar"}]
+    ctx.count({"writer_with_own_rules": True})
+    try:
+        with cwd(out4):
+            w_own = ResultsWriter(calc.pressure_base, rules=own)
+            w_own.write("bm_V")
+            first = (out4 / "kv_tp_kbar.txt").read_bytes() if (out4 / "kv_tp_kbar.txt").exists() else None
+            calc.write_output()
+            ResultsWriter(calc.volume_base).write("bm_V")
+            if (out4 / "kv_tp_kbar.txt").exists():
+                (out4 / "kv_tp_kbar.txt").unlink()
+            w_own.write("bm_V")
+            again = (out4 / "kv_tp_kbar.txt").read_bytes() if (out4 / "kv_tp_kbar.txt").exists() else None
+        if first is None:
+            ctx.violation("a writer built with rules of its own does not write under its own file-name pattern", {}, {"clause": "own_rules"})
+        elif again != first:
+            ctx.violation("a writer built with rules of its own writes another file (or other numbers) after writers with the packaged rules were used: "
+                          f"{sorted(p.name for p in out4.iterdir() if p.name.startswith(('kv', 'bm_V')))}", {}, {"clause": "own_rules"})
+    except Exception as ex:
+        ctx.violation(f"a writer built with rules of its own raised {ex!r}", {}, {"clause": "own_rules"})
     # one list of entries (dictionary entries without a file name among them) for BOTH bases - what a YAML anchor shared by
     # output.pressure_base and output.volume_base gives: each base writes its own files under the documented names
     out3 = Path(tempfile.mkdtemp(dir=wd.path))
